@@ -242,12 +242,19 @@ def rule_k6(chk: Check, F, ix: Index, thorough: bool):
         try:
             for pth in stmt_paths([dispatch[0]]):
                 conds = {x[1]: x[2] for x in pth if x[0] == "cond"}
-                new_stmt = [c for c in conds if "continued" in c and "parenlev" in c]
-                if conds.get("state.end_progs") is not False or not new_stmt or conds[new_stmt[0]] is not False:
-                    continue
+                effects = [x[1] for x in pth if x[0] == "do"]
+                if conds.get("state.end_progs") is not False:
+                    continue  # an open string: its own branch (lines are joined there)
+                if any("next_statement(" in e for e in effects):
+                    continue  # a new logical line: indentation is handled
                 if pth[-1][1] in ("raise", "break", "continue", "return"):
                     continue
-                if "state.continued = False" not in [x[1] for x in pth if x[0] == "do"]:
+                # the flag is known to be off on this path ...
+                off = conds.get("state.continued") is False or conds.get("not state.continued") is True or \
+                    any(("not state.continued" in c.split(" or ")[0].split(" and ") or "not state.continued" in c.split(" and ")) and t is True
+                        and " or " not in c for c, t in conds.items())
+                # ... or it is cleared here
+                if not off and "state.continued = False" not in effects:
                     leaks.append([x[1:] for x in pth if x[0] == "cond"])
         except AnalysisError as e:
             leaks.append(f"dispatch not analysable: {e}")
